@@ -60,6 +60,8 @@ def parseShape : String → Option Shape
   | "full" => some .full | "part" => some .part | "partSel" => some .partSel | "delSel" => some .delSel
   | "delEl" => some .delEl | "readSelEl" => some .readSelEl | "replyPartial" => some .replyPartial
   | "delSelPartSel" => some .delSelPartSel
+  | "partSelDelEl" => some .partSelDelEl | "delSelDelEl" => some .delSelDelEl
+  | "delSelPartSelDelEl" => some .delSelPartSelDelEl
   | _ => none
 
 def answerRt (cfg : Cfg) (fnName shape : String) : String :=
